@@ -174,7 +174,7 @@ def r3(ctx: Context, sm) -> None:
     eng = Engine(repo, ctx.resolver, sm, loop_k=2)
     st = State()
     tok = st.fresh(IState(frozenset({"PENDING", "RUNNING"}) | frozenset(sm.final), own=False, responsible=True), "t")
-    res = eng.run(f, {"invocation_id": Inv(tok), "runner_ctx": None}, st)
+    res = eng.run(f, {f.params[1]: Inv(tok)}, st)
     if len(res) < 2:
         raise AnalysisError("anchor-vanished: _kill_and_reroute enumerates fewer than two paths")
     bad_raise = [o for s, o in res if o.kind == "raise"]
